@@ -127,7 +127,22 @@ fn queue_file_range(
         let off = range.start + (blkn * bsize);
 
         pool.execute(move || {
-            let copy_result = copy_file_offset(&harc.infd, &harc.outfd, bytes, off as i64);
+            // The kernel may copy fewer bytes than requested; keep
+            // going until the block is complete or we hit EOF (extents
+            // reported by the filesystem may extend past the end of file).
+            let mut copied = 0u64;
+            let copy_result = loop {
+                match copy_file_offset(&harc.infd, &harc.outfd, bytes - copied, (off + copied) as i64) {
+                    Ok(0) => break Ok(copied as usize),
+                    Ok(n) => {
+                        copied += n as u64;
+                        if copied >= bytes {
+                            break Ok(copied as usize);
+                        }
+                    }
+                    Err(e) => break Err(e),
+                }
+            };
             let stat_result = match copy_result {
                 Ok(bytes) => {
                     stat_tx.send(StatusUpdate::Copied(bytes as u64))
